@@ -490,3 +490,31 @@ KTO = Unit(['C13', 'C20', 'C04'], KT + 'opacity', _kt_params, pre=_kt_pre, post=
            short='KTable.opacity', timeout_ms=30000,
            doc='k-coefficients on the requested grid: unchanged when the request is exactly the table\'s own bins in range, '
                'otherwise linear interpolation per quadrature point (scipy interp1d with edge fill values: assumed model)')
+
+
+# ------------------------------------------------------------------ Opacity.opacity without a requested grid: the whole native table
+def _h_compute_opacity_all(ex, st, args, kwargs, node):
+    """compute_opacity(T, P, filter): with the filter slice(None) every native point, in order (same assumed contract as above)"""
+    c = ex.c
+    me, T, P, filt = args
+    f = _XS(c)
+    if isinstance(filt, slice) and filt == slice(None):
+        g = st.get(st.get(me).attrs['wavenumberGrid'])
+        return st.alloc(c, Arr(g.shape, lambda ix: f(to_real(T), to_real(P), to_int(ix[0])), 'real'))
+    return _h_compute_opacity(ex, st, args, kwargs, node)
+
+
+def _opn_call(c, o, p):
+    import numpy as np
+    o._vg = np.array(p['self']['wavenumberGrid'], dtype=float)
+    o._vbase = np.array(p['_xs'], dtype=float)
+    return np.asarray(o.opacity(p['temperature'], p['pressure'])), p
+
+
+OPN = Unit(['C13', 'C04'], OPA + 'opacity', lambda c: dict(_op_params_conc(c), wngrid=None), variant='no_grid_requested',
+           pre=lambda c, v: {'sizes': c.Len(v.self.wavenumberGrid) >= 0},
+           post=lambda c, v0, v1, r: {'every_native_point_in_order': c.And(c.Len(r) == c.Len(v0.self.wavenumberGrid),
+                                                                            c.Forall(0, c.Len(r), lambda k: c.Eq(r[k], _XS(c)(v0.temperature, v0.pressure, k))))},
+           native_obj=_op_obj, native_call=_opn_call, gen=_op_gen, bounds=[dict(N=3, W=2)],
+           abstract={'call:compute_opacity': _h_compute_opacity_all, 'call:slice': lambda ex, st, args, kwargs, node: slice(*args)}, inline=['wavenumberGrid'],
+           short='Opacity.opacity@no_grid', doc='without a requested grid: the cross-section at (T, P) on every native point, in order')
